@@ -7,6 +7,8 @@
 From Coq Require Import ZArith NArith Bool List.
 From WW Require Import Gen.Params Base.AMap Base.Bytes Base.BytesCors Model.SessionTime Model.Machine Model.Entry Model.Cors
   Proofs.CorsP Proofs.MachineProxyP.
+(* the redirect model is required but NOT imported (its s_https etc. would shadow Model.Cors'): qualified names below *)
+From WW Require Base.BytesLit Model.GoUrl Model.Redirect Model.EntryRedirect Proofs.SpxHandoverP.
 Import ListNotations.
 Open Scope N_scope.
 
@@ -270,3 +272,50 @@ Example c16_proxy_nonvacuous :
   exists th, alookup 1%N (m_ts s) = Some th /\ t_kind th = KSsoProxy /\ t_phase th = PGet 0 /\
   snd (apply_event c s (ERun 1 FNone)) = ObGet 1 1.
 Proof. vm_compute. eexists. repeat split. Qed.
+
+(** ** Clause 1, "passing a redirect confined to its own ingress" (SSOProxy.Login / SSOProxy.Logout,
+    Model/Redirect.v; tied to the real handlers behind the real router by the spxredirect correspondence).
+    For EVERY redirect parameter, request host and request path: the redirect handed to the SSO server is the
+    fallback ingress itself, or the serialisation of the record of the ingress that matches the request (the fallback
+    ingress when none matches) in which only path, query and fragment come from the parameter - scheme, userinfo and
+    host are the ingress' own - and that string passed the proxy's validator. (Record level: that URL.String() of such
+    a record is read by a browser with that host is the content of the C04 authority theorems and of the monitor.) *)
+Theorem c16_proxy_login_handover_on_ingress : forall ings fb reqhost reqpath param r,
+  Redirect.spx_login_handover ings fb reqhost reqpath param = Some r ->
+  let base := Redirect.spx_base_ingress ings fb reqhost reqpath in
+  r = GoUrl.url_string fb \/
+  (Redirect.absolute_valid (map GoUrl.u_host ings) r = true /\
+   ((GoUrl.parse_url param = None /\ r = GoUrl.url_string base) \/
+    exists p, GoUrl.parse_url param = Some p /\ r = GoUrl.url_string (SpxHandoverP.spx_on_ingress base p))).
+Proof. exact SpxHandoverP.spx_login_handover_shape. Qed.
+Print Assumptions c16_proxy_login_handover_on_ingress.
+
+(** ... where the base is the fallback or a CONFIGURED ingress with the request's Host and the longest matching path. *)
+Theorem c16_proxy_base_ingress_configured : forall ings fb reqhost reqpath,
+  let base := Redirect.spx_base_ingress ings fb reqhost reqpath in
+  base = fb \/ (In base ings /\ GoUrl.u_host base = reqhost /\ GoUrl.u_path base = Redirect.spx_matching_path ings reqpath).
+Proof. exact SpxHandoverP.spx_base_ingress_configured. Qed.
+Print Assumptions c16_proxy_base_ingress_configured.
+
+(** Logout hands over a redirect only when the request carries one, and then the same as login. *)
+Theorem c16_proxy_logout_handover : forall ings fb reqhost reqpath param r,
+  Redirect.spx_logout_handover ings fb reqhost reqpath param = Some r ->
+  param <> [] /\ Redirect.spx_login_handover ings fb reqhost reqpath param = Some r.
+Proof. exact SpxHandoverP.spx_logout_handover_shape. Qed.
+Print Assumptions c16_proxy_logout_handover.
+
+(* String is imported only here, after every other statement of this file, for the literals of the example *)
+From Coq Require Import String.
+
+(** Non-vacuity: ingress https://app.example.com; other scheme + other port, a sub-domain, userinfo: all three satisfy
+    the proxy's (lax) validator, and all are rewritten onto the ingress; a foreign host likewise. *)
+Example c16_proxy_handover_nonvacuous :
+  let ing := BytesLit.bs "https://app.example.com"%string in
+  let go (p : string) := EntryRedirect.entry_spxhandler [ing] ing (BytesLit.bs "https://sso.example.com"%string) (BytesLit.bs "app.example.com"%string) (BytesLit.bs "/oauth2/login"%string) false (BytesLit.bs p) in
+  let want (p : string) := [BytesLit.bs "302"%string; BytesLit.bs "https://sso.example.com/oauth2/login"%string; [1%N]; BytesLit.bs p] in
+  go "http://app.example.com:8443/x?y#z"%string = want "https://app.example.com/x?y#z"%string /\
+  go "https://evil.app.example.com/x"%string = want "https://app.example.com/x"%string /\
+  go "https://app.example.com@evil.example/"%string = want "https://app.example.com/"%string /\
+  go "//evil.example/p"%string = want "https://app.example.com/p"%string /\
+  Redirect.absolute_valid [BytesLit.bs "app.example.com"%string] (BytesLit.bs "http://evil.app.example.com/x"%string) = true.
+Proof. vm_compute. repeat split. Qed.
